@@ -4,7 +4,7 @@ from __future__ import annotations
 import json
 
 from vt import util
-from vt.gen import exprgen, jast
+from vt.gen import closedexpr_c02, exprgen, jast
 from vt.model import interp as M
 
 PID = "C02"
@@ -13,8 +13,12 @@ TECHNIQUE = "reference-model monitor: random type-directed expression trees eval
 RULE = ("random type-directed expression trees (depth<=5) printed with minimal parentheses, each on 3 "
         "data assignments, evaluated through compile_expression and {{ }} rendering in default, "
         "optimized=False, async and sandboxed environments and compared (structural equality with "
-        "type, or same exception class) with vt.model.interp; distinct = distinct operator-shape "
-        "skeletons containing >=2 different precedence classes")
+        "type, or same exception class) with vt.model.interp; every third tree is CLOSED (no context "
+        "names: all operands are literals, container literals or constant sub-expressions, i.e. what "
+        "the compiler may evaluate itself), centred on comparisons and containment between operands of "
+        "one type family (str/str, list/list-of-lists, tuple/tuple-of-tuples, number/number) related "
+        "either way round or not at all, also chained and inside conditional expressions / concat; "
+        "distinct = distinct operator-shape skeletons containing >=2 different precedence classes")
 LEVEL_TEXT = ("held on the generated trees/data only; evaluator written from docs/templates.rst "
               "(Math, Comparisons, Logic, Other Operators, If Expression, Variables)")
 ASSUMPTIONS = [
@@ -27,10 +31,14 @@ BUDGET_S = {"quick": 22, "thorough": 600}
 FLOORS = {
     "quick": {"evaluations": 8000, "distinct": 400,
               "counters": {"oracle_value_compares": 5000, "oracle_text_compares": 2000,
-                           "both_raise_same": 100}},
+                           "both_raise_same": 100, "closed_trees": 300,
+                           "closed_containment_cmp": 160, "closed_container_in_container": 65,
+                           "closed_chained_containment": 35, "closed_ordering_cmp": 110}},
     "thorough": {"evaluations": 200000, "distinct": 30000,
                  "counters": {"oracle_value_compares": 100000, "oracle_text_compares": 50000,
-                              "both_raise_same": 2000}},
+                              "both_raise_same": 2000, "closed_trees": 7500,
+                              "closed_containment_cmp": 4000, "closed_container_in_container": 1600,
+                              "closed_chained_containment": 900, "closed_ordering_cmp": 2750}},
 }
 ENVS = ["default", "unopt", "async", "sandbox", "autoescape"]
 _envs = None
@@ -150,12 +158,21 @@ def run_case(ctx, tree, recipe, idx):
 def run(ctx):
     rng = ctx.rng("trees")
     g = exprgen.Gen(rng, features={"markup"})
+    cg = closedexpr_c02.ClosedGen(ctx.rng("closed_trees"))
     n = 6000 if ctx.tier == "quick" else 250000
     i = 0
     while ctx.more(i, n, floor=200):
         depth = rng.choice([2, 3, 3, 4, 4, 5])
-        tree = g.expr(depth)
-        for j in range(3):
+        closed = i % 3 == 2
+        if closed:
+            # no context names: one data assignment is enough
+            tree = cg.expr(min(depth, 4))
+            ctx.count("closed_trees")
+            for name in closedexpr_c02.classify(tree):
+                ctx.count(name)
+        else:
+            tree = g.expr(depth)
+        for j in range(1 if closed else 3):
             recipe, data = exprgen.make_data(rng)
             mo = model_eval(tree, data)
             if not mo.ok:
